@@ -61,6 +61,8 @@ VerifyVerdict(e) ==
    LET x == Expected(e) IN
    IF x.v = "witness" THEN "harness: witness refused (" \o x.why \o ")"
    ELSE IF x.v = "undefined" THEN "harness: configuration outside the domain of the scheme (" \o x.why \o ")"
+   \* the offered signature is what sign() returned (no effective mutation): the first clause of C04 - sign() must produce what the standard defines as valid
+   ELSE IF e.model = "accept" /\ e.cls = "genuine" /\ x.v = "invalid" THEN "sign() produced a signature the standard does not define as valid: " \o x.why
    ELSE IF e.model = "accept" /\ x.v = "invalid" THEN "harness: the model classifies the tuple as genuine, the data layer as invalid (" \o x.why \o ")"
    ELSE IF e.out = "ok" /\ x.v = "invalid" THEN "verify accepted a triple the standard does not define as valid: " \o x.why
    ELSE IF e.out = "ValueError" /\ x.v = "valid" THEN (IF Len(e.ops) = 0 THEN "verify rejected a genuine signature" ELSE "verify rejected a valid signature: " \o e.cls)
